@@ -39,6 +39,7 @@ import (
 	"net"
 	"sort"
 	"sync"
+	"sync/atomic"
 	"time"
 
 	"tunnox-core/internal/app/server"
@@ -85,14 +86,15 @@ type Server struct {
 	Rate    *security.RateLimiter
 	NodeID  string
 
-	cancel  context.CancelFunc
-	cfgRepo *repos.ClientConfigRepository
-	idm     *idgen.IDManager
-	csOnce  sync.Once
-	cs      *clientsvc.Service
-	csErr   error
-	mu      sync.Mutex
-	conns   []*Conn
+	cancel     context.CancelFunc
+	cfgRepo    *repos.ClientConfigRepository
+	cloudFault *faultyCloud
+	idm        *idgen.IDManager
+	csOnce     sync.Once
+	cs         *clientsvc.Service
+	csErr      error
+	mu         sync.Mutex
+	conns      []*Conn
 }
 
 // NewServer builds the assembly. Close it when done (stops the background goroutines).
@@ -158,7 +160,8 @@ func NewServer(o Options) (*Server, error) {
 	// HandlersComponent (auth part)
 	s.Auth = server.NewServerAuthHandler(s.Cloud, s.SM, s.Brute, s.IPs, s.Rate, s.Keys)
 	s.SM.SetAuthHandler(s.Auth)
-	s.SM.SetCloudControl(session.NewCloudControlAdapter(s.Cloud))
+	s.cloudFault = &faultyCloud{CloudControlAPI: session.NewCloudControlAdapter(s.Cloud)}
+	s.SM.SetCloudControl(s.cloudFault)
 	s.SM.SetNodeID(s.NodeID)
 	if !o.NoConnState {
 		s.SM.SetTunnelRoutingTable(session.NewTunnelRoutingTable(st, 30*time.Second))
@@ -506,6 +509,72 @@ func (s *Server) CredentialState(clientID int64) (bound, expiryPast bool, err er
 		return false, false, fmt.Errorf("srvkit: no stored config for client %d: %v", clientID, err)
 	}
 	return cfg.UserID != "", cfg.ExpiresAt != nil && time.Now().After(*cfg.ExpiresAt), nil
+}
+
+// faultyCloud is the session layer's cloud-control adapter (session.NewCloudControlAdapter over
+// the real BuiltinCloudControl) with a switchable outage of the client runtime-state calls the
+// session layer makes on close / sweep / heartbeat (DisconnectClient, DisconnectClientIfMatch,
+// EnsureClientOnline): they fail like a storage / Redis outage. Everything else passes through.
+type faultyCloud struct {
+	session.CloudControlAPI
+	down atomic.Bool
+}
+
+var errCloudDown = errors.New("srvkit: injected cloud-control outage")
+
+func (f *faultyCloud) DisconnectClient(clientID int64) error {
+	if f.down.Load() {
+		return errCloudDown
+	}
+	return f.CloudControlAPI.DisconnectClient(clientID)
+}
+func (f *faultyCloud) DisconnectClientIfMatch(clientID int64, nodeID, connID string) (bool, error) {
+	if f.down.Load() {
+		return false, errCloudDown
+	}
+	return f.CloudControlAPI.DisconnectClientIfMatch(clientID, nodeID, connID)
+}
+func (f *faultyCloud) EnsureClientOnline(clientID int64, nodeID, connID, ip, protocol, version string) error {
+	if f.down.Load() {
+		return errCloudDown
+	}
+	return f.CloudControlAPI.EnsureClientOnline(clientID, nodeID, connID, ip, protocol, version)
+}
+
+// SetCloudOutage switches the injected outage of the session layer's runtime-state calls on/off.
+func (s *Server) SetCloudOutage(down bool) { s.cloudFault.down.Store(down) }
+
+// ReloadIPManager re-creates the IPManager on the same storage - what a restarted server or
+// another node sharing the store does in SecurityComponent.Initialize (black/white lists are
+// loaded from storage) - and re-creates the auth handler around it (all other parts unchanged).
+func (s *Server) ReloadIPManager() {
+	s.IPs = security.NewIPManager(s.Storage, s.Ctx)
+	s.Auth = server.NewServerAuthHandler(s.Cloud, s.SM, s.Brute, s.IPs, s.Rate, s.Keys)
+	s.SM.SetAuthHandler(s.Auth)
+}
+
+// CorruptStoredSecret makes the stored SecretKeyEncrypted of the client undecryptable for this
+// server (as after a master-key rotation or with a damaged record): it is replaced by the same
+// secret sealed under a different random master key - well-formed, non-empty, wrong key.
+func (s *Server) CorruptStoredSecret(clientID int64) error {
+	cfg, err := s.cfgRepo.GetConfig(clientID)
+	if err != nil || cfg == nil {
+		return fmt.Errorf("srvkit: no stored config for client %d: %v", clientID, err)
+	}
+	mk := make([]byte, 32)
+	if _, err := rand.Read(mk); err != nil {
+		return err
+	}
+	other, err := security.NewSecretKeyManager(&security.SecretKeyConfig{MasterKey: base64.StdEncoding.EncodeToString(mk)})
+	if err != nil {
+		return err
+	}
+	enc, err := other.Encrypt("sealed-under-another-master-key")
+	if err != nil {
+		return err
+	}
+	cfg.SecretKeyEncrypted = enc
+	return s.cfgRepo.UpdateConfig(cfg)
 }
 
 // Kick is SessionManager.KickOldControlConnection.
